@@ -902,3 +902,34 @@ pub fn determinism_check<P: Prop>(prop: &P, seed: u64, runs: u64) -> Result<u64,
         Err(format!("{}: digests differ across repetitions/worker counts: {:?}", prop.id(), digests))
     }
 }
+
+/// Shrinker soundness: on a tree where the property holds, no shrink candidate of a generated case may violate —
+/// a candidate that does is an inconsistent case manufactured by the shrinker (a minimised replay built from it
+/// would "reproduce" on correct code).
+pub fn shrink_soundness<P: Prop>(prop: &P, seed: u64, cases: u64, per_case: usize) -> Result<u64, String> {
+    let mut executed = 0u64;
+    for i in 0..cases {
+        let (case, hash_seed) = make_case(prop, seed, Tier::Quick, i);
+        let mut level = vec![case];
+        // two levels of shrinking
+        for _depth in 0..2 {
+            let mut next = Vec::new();
+            for c in &level {
+                for cand in prop.shrink(c).into_iter().take(per_case) {
+                    let rep = execute_any(prop, hash_seed, &cand, false);
+                    executed += 1;
+                    if let Some(v) = rep.violation {
+                        let env = Envelope { format: FORMAT.to_string(), property: prop.id().to_string(), tier: Tier::Quick, seed, run: i, hash_seed, case: cand, violation: Some(v.clone()), minimised: false, shrink_steps: 0 };
+                        let p = write_replay(&env, "-shrink-unsound");
+                        return Err(format!("{}: a shrink candidate of run {i} violates on this tree: {} ({}); case written to {}", prop.id(), v.class, v.detail, p.display()));
+                    }
+                    if next.len() < 3 {
+                        next.push(cand);
+                    }
+                }
+            }
+            level = next;
+        }
+    }
+    Ok(executed)
+}
